@@ -64,7 +64,7 @@ theorem decPos_encPos (P : Params) (goal : Bool) (p : Pos) (h : okPos P goal p) 
   cases p with
   | point p =>
     have hf : find "point" [(pt3E P).el "point" p] = some ((pt3E P).el "point" p) := find_singleton_self _ _ rfl
-    simp only [decPos, encPos, hf, (pt3E_lawful P).rt "point" p ⟨trivial, trivial, fun _ _ => trivial⟩, normPos]
+    simp only [decPos, encPos, hf, (pt3E_lawful P).rt "point" p h.2, normPos]
   | region s =>
     cases s with
     | one s =>
@@ -165,7 +165,7 @@ theorem encField_tag (P : Params) (goal : Bool) (f : String × SVal) (h : okFiel
     show ("time" : String) = xmlName "time_step"
     decide
   | val v =>
-    have hg : goal = true → xmlNameGoal n = xmlName n := h.2.2.2.2.2
+    have hg : goal = true → xmlNameGoal n = xmlName n := h.2.2.2.2.2.1
     cases goal with
     | false => rfl
     | true =>
@@ -258,7 +258,7 @@ theorem readFound_field (P : Params) (goal : Bool) (f : String × SVal) (h : okF
     have h2 : (n == "time_step") = false := by
       have : n ≠ "time_step" := h.2.1
       simpa using this
-    have := (valC_lawful P).rt v (by cases v <;> first | trivial | exact ⟨trivial, trivial⟩)
+    have := (valC_lawful P).rt v h.2.2.2.2.2.2
     have htag : (encField P goal (n, SVal.val v)).kids = (valC P).enc v := by cases goal <;> rfl
     simp only [readFound, h1, h2, htag, this, normField, Bool.false_eq_true, ↓reduceIte]
 
